@@ -103,29 +103,53 @@ def Block.rows (c : Codec V) (descRow : Bool) (total : Nat) (b : Block V) : List
   b.nameRow :: ((if descRow then [b.descRow] else []) ++ b.periods.map (b.dataRow c)
     ++ List.replicate (total - b.periods.length) b.emptyRow)
 
+def maxLen : List Nat → Nat
+  | [] => 0
+  | n :: ns => max n (maxLen ns)
+
+/-- the resolved `frequency_span` dictionary of `to_csv_file`, in key order: `none` stands for `...` (the whole
+range of that frequency), `some periods` for an explicit selection of periods (any order, step or repetition) -/
+abbrev FSpan := List (BFreq × Option (List Int))
+
+/-- `_DEFAULT_FREQUENCY_SPAN` -/
+def defaultFSpan : FSpan := blockOrder.map (fun f => (f, none))
+
+/-- the `span=` argument: `{span[0].frequency: span}`; an empty span is an IndexError -/
+def spanArg (f : BFreq) (periods : List Int) : R FSpan :=
+  if periods.isEmpty then throw .badInput else pure [(f, some periods)]
+
+/-- one block per entry of the frequency-span dictionary whose frequency has series, in key order -/
+def exportBlocksWith (fs : FSpan) (ss : List (String × Ser V)) : List (Block V) :=
+  fs.filterMap (fun e =>
+    let m := withFreq ss e.1
+    if m.isEmpty then none else some ⟨e.1, e.2.getD (blockPeriods e.1 m), m⟩)
+
+/-- `_get_total_num_data_rows`: the longest span of the dictionary -- explicit spans count even without series -/
+def totalRowsWith (fs : FSpan) (ss : List (String × Ser V)) : Nat :=
+  maxLen (fs.map (fun e => match e.2 with
+    | some ps => ps.length
+    | none => let m := withFreq ss e.1; if m.isEmpty then 0 else (blockPeriods e.1 m).length))
+
 /-- one block per frequency that has series, in `blockOrder` -/
-def exportBlocks (ss : List (String × Ser V)) : List (Block V) :=
-  blockOrder.filterMap (fun f =>
-    let m := withFreq ss f
-    if m.isEmpty then none else some ⟨f, blockPeriods f m, m⟩)
+def exportBlocks (ss : List (String × Ser V)) : List (Block V) := exportBlocksWith defaultFSpan ss
 
 /-- `zip(*blocks)` + `chain.from_iterable(row)` for blocks of `R` rows each -/
 def zipRowsN (R : Nat) : List (List (List String)) → List (List String)
   | [] => List.replicate R []
   | b :: bs => List.zipWith (· ++ ·) b (zipRowsN R bs)
 
-def maxLen : List Nat → Nat
-  | [] => 0
-  | n :: ns => max n (maxLen ns)
-
 def headerRows (descRow : Bool) : Nat := if descRow then 2 else 1
 
-/-- the grid `to_csv_file` hands to `csv.writer`, row by row (no block: nothing is written) -/
-def exportGrid (c : Codec V) (descRow : Bool) (db : Box (Ser V) V) : List (List String) :=
-  let blocks := exportBlocks (seriesOf db)
-  let total := maxLen (blocks.map (fun b => b.periods.length))
+/-- the grid `to_csv_file(frequency_span=…)` hands to `csv.writer`, row by row (no block: nothing is written) -/
+def exportGridWith (c : Codec V) (descRow : Bool) (fs : FSpan) (db : Box (Ser V) V) : List (List String) :=
+  let blocks := exportBlocksWith fs (seriesOf db)
+  let total := totalRowsWith fs (seriesOf db)
   if blocks.isEmpty then []
   else zipRowsN (headerRows descRow + total) (blocks.map (Block.rows c descRow total))
+
+/-- the default export: every frequency over its whole range -/
+def exportGrid (c : Codec V) (descRow : Bool) (db : Box (Ser V) V) : List (List String) :=
+  exportGridWith c descRow defaultFSpan db
 
 end Export
 
